@@ -231,6 +231,22 @@ class MoveAnalysis:
             # loop variable depends on what is iterated
             it = a.iter
             dep = self.derived(it, st) or (isinstance(it, ast.Call) and isinstance(it.func, ast.Name) and it.func.id == "range")
+            # for i in range(3): self.F[i] += v[i]   -- the component-wise translation written as a loop over the three axes
+            if isinstance(it, ast.Call) and isinstance(it.func, ast.Name) and it.func.id == "range" and len(it.args) == 1 \
+                    and isinstance(it.args[0], ast.Constant) and it.args[0].value == 3 and isinstance(a.target, ast.Name) and not a.orelse:
+                i = a.target.id
+                shifted = set()
+                plain = True
+                for b in a.body:
+                    if isinstance(b, ast.AugAssign) and isinstance(b.op, ast.Add) and isinstance(b.target, ast.Subscript) \
+                            and self.self_field(b.target.value) is not None and isinstance(b.target.slice, ast.Name) and b.target.slice.id == i \
+                            and isinstance(b.value, ast.Subscript) and isinstance(b.value.value, ast.Name) and b.value.value.id == self.v \
+                            and isinstance(b.value.slice, ast.Name) and b.value.slice.id == i:
+                        shifted.add(self.self_field(b.target.value))
+                    else:
+                        plain = False
+                if plain:
+                    fresh |= shifted
             for n in ast.walk(a.target):
                 if isinstance(n, ast.Name):
                     if self.derived(it, st):
